@@ -94,7 +94,8 @@ TraceWire ==
             /\ wire' = <<>> /\ insync' = FALSE /\ st' = "run"
             /\ UNCHANGED <<strings, encinc, ph, ei, bomdone, pos, pending, bomseen, out,
                            ended, hist, tid, l, real>>
-       ELSE IF T.wirecps # ExpectWire THEN Reject(0, Clause(T.wirecps, ExpectWire))
+       ELSE IF T.wirecps # ExpectWire THEN
+            LET want == ExpectWire IN Reject(0, Clause(T.wirecps, want))
        ELSE IF T.bomlen # (IF Len(wire) > 0 THEN BomLen ELSE 0) THEN Reject(0, "bom")
        ELSE IF T.wirelen # Len(wire) THEN RejectModel(0, "model-wirelen")
        ELSE /\ st' = "run"
@@ -105,10 +106,11 @@ TraceFeed ==
     /\ LET f == T.feeds[l + 1]
            m == Len(real)
            mrel == DecRelease(pending \o SubSeq(wire, pos + 1, pos + f.n), bomseen)
+           want == Expect
        IN
         IF pos + f.n > Len(wire) THEN RejectModel(l + 1, "model-harness-chunk")
-        ELSE IF m + Len(f.rel) > Len(Expect) \/ f.rel # SubSeq(Expect, m + 1, m + Len(f.rel))
-             THEN Reject(l + 1, ClausePrefix(real \o f.rel, Expect))
+        ELSE IF m + Len(f.rel) > Len(want) \/ f.rel # SubSeq(want, m + 1, m + Len(f.rel))
+             THEN Reject(l + 1, ClausePrefix(real \o f.rel, want))
         ELSE IF m + Len(f.rel) > Len(out) + Len(mrel) THEN Reject(l + 1, "early-output")
         ELSE /\ Feed(f.n)
              /\ real' = real \o f.rel
@@ -119,9 +121,10 @@ TraceFeed ==
 TraceComplete ==
     /\ st = "run" /\ l = Len(T.feeds)
     /\ IF pos = Len(wire) THEN
-            IF out # Expect \/ pending # <<>> THEN RejectModel(l, "model-roundtrip")
+            LET want == Expect IN
+            IF out # want \/ pending # <<>> THEN RejectModel(l, "model-roundtrip")
             ELSE IF T.ended # "completed" THEN Reject(l + 1, "completion")
-            ELSE IF real \o T.final # Expect THEN Reject(l + 1, Clause(real \o T.final, Expect))
+            ELSE IF real \o T.final # want THEN Reject(l + 1, Clause(real \o T.final, want))
             ELSE /\ Complete
                  /\ PrintT(<<"VERDICT", tid, "ACCEPT", l + 1, insync /\ T.final = <<>> >>)
                  /\ st' = "end"
